@@ -26,6 +26,8 @@ def model_by_id(mid, kind="dense"):
         return nets.make_stack(rng, dims=2, param="walsh", max_in=12, n_conv=1, n_dense=1, connections="random")
     if kind == "conv3d":
         return nets.make_stack(rng, dims=3, param="raw", max_in=12, n_conv=1, n_dense=1)
+    if kind == "dense-nogs":
+        return nets.make_dense(rng, 5, [7, 6], k=None)
     if kind == "dense-wide":
         # more inputs than a 16-bit index can address
         return nets.make_dense(rng, 40000, [64, 6], k=2, self_pairs=0.0)
@@ -124,7 +126,7 @@ def job_save(job):
     net = compiled.build(m, job["W"])
     compiled.compile_net(net, save=job["lib_path"])
     yc = compiled.forward(net, np.array(rows, dtype=bool).reshape(len(rows), *spec["input_shape"]).tolist())
-    say({"eval": y, "compiled": yc, "input_shape": spec["input_shape"], "k": spec["k"], "tau": spec["tau"]})
+    say({"eval": y, "compiled": yc, "input_shape": spec["input_shape"], "k": spec["k"], "tau": spec["tau"], "n_out": len(yc[0])})
     say({"done": True})
 
 
@@ -159,10 +161,13 @@ def job_reload(job):
     if job.get("preload"):
         # another saved library is loaded (and called) in this process first: the two must not interfere
         pl = job["preload"]
-        other = CM.CompiledLogicNet.load(pl["lib_path"], tuple(pl["input_shape"]), pl["k"], pl["W"])
+        other = CM.CompiledLogicNet.load(pl["lib_path"], tuple(pl["input_shape"]), pl["k"], pl["W"], output_size=pl.get("n_out"))
         n_other = int(np.prod(pl["input_shape"]))
         compiled.forward(other, np.array(probe(n_other, 3), dtype=bool).reshape(3, *pl["input_shape"]).tolist())
-    net = CM.CompiledLogicNet.load(job["lib_path"], tuple(job["input_shape"]), job["k"], job["W"])
+    if job["k"]:
+        net = CM.CompiledLogicNet.load(job["lib_path"], tuple(job["input_shape"]), job["k"], job["W"])
+    else:   # no GroupSum: the output width is not stored in the library
+        net = CM.CompiledLogicNet.load(job["lib_path"], tuple(job["input_shape"]), None, job["W"], output_size=job["n_out"])
     yc = compiled.forward(net, np.array(rows, dtype=bool).reshape(len(rows), *job["input_shape"]).tolist())
     say({"eval": y, "compiled": yc})
     say({"done": True})
